@@ -2,26 +2,52 @@
 package c13
 
 import (
-	"time"
+	"bytes"
 	"encoding/json"
+	"errors"
 	"fmt"
+	"os"
+	"os/exec"
+	"path/filepath"
 	"regexp"
 	"sort"
 	"strings"
 	"sync"
 	"testing"
+	"time"
 
 	algoparser "github.com/moorara/algo/parser"
 	"pgregory.net/rapid"
 
 	ebnf "github.com/gardenbed/emerge/internal/ebnf/parser"
 	"github.com/gardenbed/emerge/internal/ebnf/parser/spec"
+	"github.com/gardenbed/emerge/internal/vh/emit"
 	"github.com/gardenbed/emerge/internal/vh/gen"
 	"github.com/gardenbed/emerge/internal/vh/rec"
 	"github.com/gardenbed/emerge/internal/vh/ref"
 )
 
-func TestMain(m *testing.M) { rec.Main(m, "C13") }
+func TestMain(m *testing.M) {
+	if f := os.Getenv("VERIF_C13_CHILD"); f != "" {
+		// child mode: derive the signature of one text in a process of its own (see signature)
+		text, err := os.ReadFile(f)
+		if err != nil {
+			fmt.Println(err)
+			os.Exit(9)
+		}
+		sig, serr := signatureNow(string(text))
+		out := map[string]string{"sig": sig}
+		if serr != nil {
+			out["err"] = serr.Error()
+		}
+		_ = json.NewEncoder(os.Stdout).Encode(out)
+		os.Exit(0)
+	}
+	rec.Main(m, "C13")
+}
+
+// errStarved: a call did not return within its wall-clock limit but hardly got the processor: no verdict.
+var errStarved = errors.New("inconclusive: the machine is too busy to tell an endless loop from a slow run")
 
 // ruleMore describes what was added to the exploration in the build phase.
 const ruleMore = "; a quarter of the specifications are made ill-formed (undefined token or rule, token twice, same value, invalid pattern, unknown predefined name): the diagnostics must name the same tokens (ordinals) in every layout"
@@ -46,26 +72,70 @@ type input struct {
 var posRe = regexp.MustCompile(`\S+\.ebnf:\d+:\d+`)
 
 // signature is everything emerge derives from a specification, without positions.  A specification of a few
-// kilobytes is processed in milliseconds; a call that has not returned after 20 s (tried twice) is reported as "does
-// not return for this layout" - the one way an endless loop in the reader can be told from a slow machine.
+// kilobytes is processed in milliseconds.  A call that has not returned after 20 s is repeated in a child process whose
+// processor time is watched: 10 s of processor time without a result is an endless loop ("does not return for this
+// layout"); a child that merely does not get the processor (busy machine) yields no verdict (errStarved).
 func signature(text string) (string, error) {
 	type result struct {
 		sig string
 		err error
 	}
-	for attempt := 0; attempt < 2; attempt++ {
-		done := make(chan result, 1)
-		go func() {
-			s, e := signatureNow(text)
-			done <- result{s, e}
-		}()
+	done := make(chan result, 1)
+	go func() {
+		s, e := signatureNow(text)
+		done <- result{s, e}
+	}()
+	select {
+	case r := <-done:
+		return r.sig, r.err
+	case <-time.After(20 * time.Second):
+	}
+	rec.Count("calls_repeated_in_a_child_process", 1)
+	dir, err := os.MkdirTemp("", "c13child")
+	if err != nil {
+		return "", err
+	}
+	defer os.RemoveAll(dir)
+	file := filepath.Join(dir, "text.ebnf")
+	if err := os.WriteFile(file, []byte(text), 0o644); err != nil {
+		return "", err
+	}
+	cmd := exec.Command(os.Args[0], "-test.run", "^$")
+	cmd.Env = append(os.Environ(), "VERIF_C13_CHILD="+file)
+	var out bytes.Buffer
+	cmd.Stdout = &out
+	if err := cmd.Start(); err != nil {
+		return "", err
+	}
+	finished := make(chan error, 1)
+	go func() { finished <- cmd.Wait() }()
+	start := time.Now()
+	tick := time.NewTicker(500 * time.Millisecond)
+	defer tick.Stop()
+	for {
 		select {
-		case r := <-done:
-			return r.sig, r.err
-		case <-time.After(20 * time.Second):
+		case werr := <-finished:
+			var res map[string]string
+			if werr != nil || json.Unmarshal(out.Bytes(), &res) != nil {
+				return "", fmt.Errorf("harness: the child process failed: %v %s", werr, out.String())
+			}
+			if res["err"] != "" {
+				return res["sig"], errors.New(res["err"])
+			}
+			return res["sig"], nil
+		case <-tick.C:
+			if emit.CPUTime(cmd.Process.Pid) >= emit.SpinCPU {
+				_ = cmd.Process.Kill()
+				<-finished
+				return "", fmt.Errorf("emerge does not return for this layout of the specification (%d bytes): %v of processor time without a result, the normal cost is milliseconds", len(text), emit.SpinCPU)
+			}
+			if time.Since(start) >= emit.WallLimit {
+				_ = cmd.Process.Kill()
+				<-finished
+				return "", errStarved
+			}
 		}
 	}
-	return "", fmt.Errorf("emerge does not return for this layout of the specification (%d bytes; two attempts of 20 s, the normal cost is milliseconds)", len(text))
 }
 
 func signatureNow(text string) (string, error) {
@@ -419,6 +489,10 @@ func runRendering(t tb, m *ref.SpecModel, baseText, baseSig string, toks []ref.T
 		rec.Sample(label+"-long", fmt.Sprintf("%d bytes, padding %d: %s ... %s", len(text), pad, text[:60], text[len(text)-60:]))
 	}
 	err := checkRendering(baseSig, text, placed)
+	if errors.Is(err, errStarved) {
+		rec.Count("inconclusive_starved", 1)
+		return
+	}
 	if err == nil && strings.HasPrefix(baseSig, "ERROR") {
 		err = checkDiagnosticPositions(baseText, text)
 	}
@@ -467,6 +541,10 @@ func TestLayoutsAndPaddings(t *testing.T) {
 		rec.Count("specifications_with_defect_"+defect, 1)
 		baseText := m.Text()
 		baseSig, err := signature(baseText)
+		if errors.Is(err, errStarved) {
+			rec.Count("inconclusive_starved", 1)
+			return
+		}
 		if err != nil {
 			rec.Fail(t, "rendering", input{Model: m, Base: baseText, Text: baseText}, "%v", err)
 		}
@@ -483,7 +561,7 @@ func TestLayoutsAndPaddings(t *testing.T) {
 		_, placed := ref.Render(toks, seps)
 		for k := 0; k < 3; k++ {
 			i := rapid.IntRange(0, len(toks)-1).Draw(t, "token")
-			b := rapid.SampledFrom([]int{4096, 8192, 12288, 4096, 8192, 2048, 6144, 1024}).Draw(t, "boundary")
+			b := rapid.SampledFrom([]int{4096, 8192, 12288, 4096, 8192, 2048, 6144, 1024, 4096, 8192, 12288, 16384, 32768, 65536, 69632, 131072}).Draw(t, "boundary")
 			delta := rapid.IntRange(-2, 2).Draw(t, "delta")
 			anchor := rapid.SampledFrom([]string{"first", "last", "following"}).Draw(t, "anchor")
 			at := placed[i].Off
@@ -549,7 +627,9 @@ func TestPaddingSweep(t *testing.T) {
 				}
 				want, _, _ := scanner.Scan(text)
 				rec.Case(fmt.Sprintf("sweep%d:%d:%d", si, kind, pad), pad >= 4000, "padding_sweep")
-				if err := checkRendering(baseSig, text, want); err != nil {
+				if err := checkRendering(baseSig, text, want); errors.Is(err, errStarved) {
+					rec.Count("inconclusive_starved", 1)
+				} else if err != nil {
 					rec.Fail(t, "rendering", input{Base: base, Text: text, Pad: pad}, "specification %d with padding %d (kind %d): %v", si, pad, kind, err)
 				}
 			}
